@@ -109,6 +109,20 @@ def check(run: Run, ctx) -> None:
                 doc["components"]["schemas"][n] = {r.choice(["oneOf", "anyOf"]): r.sample(prim, r.randint(3, 6))}
             doc["components"]["schemas"]["MixedHolder"] = {"type": "object", "properties": {
                 "value": {"oneOf": r.sample(prim, 4)}, "other": {"anyOf": r.sample(prim, 5)}, "ref": {"$ref": "#/components/schemas/MixedA"}}}
+        if i % 2 == 1:
+            # class names that differ only in case (a case-insensitive ordering of a set leaves their order to the hash seed) and
+            # inline definitions whose contextual name <Parent><Prop> equals a component declared earlier (fidelity there is F37's
+            # business; the output must still be the same in every process)
+            sch = doc["components"]["schemas"]
+            for a, b in r.sample([("UserName", "Username"), ("DataSource", "Datasource"), ("FileName", "Filename"), ("TimeStamp", "Timestamp")], 2):
+                sch[a] = {"type": "object", "properties": {"value": {"type": "string"}}}
+                sch[b] = {"type": "object", "properties": {"text": {"type": "string"}}}
+            sch["CrateTags"] = {"type": "object", "properties": {"label": {"type": "string"}}}
+            sch["CrateLid"] = {"type": "string", "enum": ["on", "off"]}
+            sch["Crate"] = {"type": "object", "properties": {
+                "tags": {"type": "array", "items": {"type": "object", "properties": {"k": {"type": "string"}, "v": {"type": "integer"}}}},
+                "lid": {"type": "object", "properties": {"hinged": {"type": "boolean"}}},
+                "label": {"type": "string"}}}
         pkg, core = [("pkg.client", None), ("client", "core"), ("a.b.client", "a.b.core")][i % 3]
         # generate ; generate(force=False) is checked where no recorded finding makes it fail: embedded core (F33/F21), no duplicate ids (F19)
         cases.append({"id": f"c09-{i}", "doc": doc, "warm_doc": gs.gen_spec(rng(f"C09:warm:{i}"), gs.Opts(mainstream=True)), "package": pkg, "core": core,
